@@ -699,6 +699,14 @@ def gen(props, tier, rng):
             if rng.random() < 0.2: s = s[:rng.randrange(0, len(s) + 1)]
             yield f"schc matchschc {e_rules(rules)} {rng.choice('LR')}:{s} # prefixfree"
             yield f"schc mdecompress {e_rules(rules)} {rng.choice('LR')}:{s} # prefixfree"
+    # ---------------------------------------------------------------- compute descriptors where the RFC formula lacks its inputs
+    if props & {'C09', 'C20'}:
+        # outside every property's quantifier (rule sets are well-formed there): model and implementation are only compared
+        for i in range(40 if q else 400):
+            ids = [rng.choice(rulegen.COMPUTABLE + ['UDP:Source Port', 'IPv6:Source Address', 'IPv4:Source Address', 'f0']) for _ in range(rng.randrange(1, 5))]
+            fields = [{'id': x, 'len': 16, 'pos': 0, 'dir': 'B', 'mo': 'ig', 'cda': 'co' if x in rulegen.COMPUTABLE and rng.random() < 0.7 else 'vs', 'tv': ('b', 'L:')} for x in ids]
+            r = {'id': abuf(rulegen.rbits(rng, 3)), 'nature': 'c', 'fields': fields}
+            yield f"schc decompress {rng.choice('LR')}:{r['id'][2:]}{rulegen.rbits(rng, rng.randrange(0, 80))} {e_rule(r)}"
     # ---------------------------------------------------------------- checksums whose one's-complement sum folds twice
     if props & {'C01', 'C03', 'C09', 'C20'}:
         for i in range(12 if q else 120):
